@@ -44,6 +44,16 @@ type valuePlan struct {
 	rbit []*Term
 	cur  *Term
 	ty   types.Type
+	// any: dynamic type id and the candidate concrete values
+	dyn      *Term
+	variants []anyVariant
+}
+
+// anyVariant: one concrete dynamic type an empty-interface value can have in a replay.
+type anyVariant struct {
+	id   int64
+	name string // reflect-style name understood by the replay runtime
+	p    *valuePlan
 }
 
 type fieldPlan struct {
@@ -72,7 +82,8 @@ func (e *Engine) planValue(x *Exec, t *Term, ty types.Type, depth int, nElems in
 			}
 			return &valuePlan{kind: "uint", term: t, w: t.S.W}
 		case u.Info()&types.IsString != 0:
-			return &valuePlan{kind: "str", term: t}
+			e.DeclareUF("strlen", SInt, SStr)
+			return &valuePlan{kind: "str", term: t, ln: App("strlen", SInt, t)}
 		}
 	case *types.Slice:
 		p := &valuePlan{kind: "slice", arr: SArr(t), off: SOff(t), ln: SLen(t), cp: SCap(t), elemT: u.Elem()}
@@ -100,6 +111,29 @@ func (e *Engine) planValue(x *Exec, t *Term, ty types.Type, depth int, nElems in
 		p.obj = e.planObject(x, t, u.Elem(), st, depth)
 		return p
 	case *types.Interface:
+		if u.NumMethods() == 0 && depth < 3 {
+			// an empty-interface value (jq value): its dynamic type decides what is built
+			e.DeclareUF("dyntype", SInt, SInt)
+			p := &valuePlan{kind: "any", term: t, dyn: App("dyntype", SInt, t)}
+			cands := []struct {
+				name string
+				ty   types.Type
+			}{
+				{"int", types.Typ[types.Int]}, {"string", types.Typ[types.String]}, {"bool", types.Typ[types.Bool]},
+				{"[]interface {}", types.NewSlice(types.NewInterfaceType(nil, nil))},
+			}
+			for _, c := range cands {
+				id, ok := typeIDs[c.ty.String()]
+				if !ok {
+					continue
+				}
+				srt := e.SortOf(c.ty)
+				bn := "box$" + srt.Short()
+				e.DeclareUF(bn, srt, SInt)
+				p.variants = append(p.variants, anyVariant{id: int64(id), name: c.name, p: e.planValue(x, App(bn, srt, t), c.ty, depth+1, 8)})
+			}
+			return p
+		}
 		p := &valuePlan{kind: "iface", term: t}
 		hasM := func(name string) bool {
 			for i := 0; i < u.NumMethods(); i++ {
@@ -181,6 +215,13 @@ func (p *valuePlan) terms(out *[]*Term) {
 	case "ptr":
 		*out = append(*out, p.term)
 		p.obj.terms(out)
+	case "str":
+		*out = append(*out, p.ln)
+	case "any":
+		*out = append(*out, p.term, p.dyn)
+		for _, v := range p.variants {
+			v.p.terms(out)
+		}
 	case "iface", "file":
 		*out = append(*out, p.term)
 		if p.rlen != nil {
@@ -248,7 +289,35 @@ func (mr *modelReader) read(p *valuePlan) (*govcrt.JVal, string) {
 		b := s == "true"
 		return &govcrt.JVal{Bool: &b}, ""
 	case "str":
-		return nil, "string inputs are not replayed"
+		// the solvers treat strings as an uninterpreted sort: only the length is taken from the model
+		n := 0
+		if ls, ok := mr.get(p.ln); ok {
+			if l, ok := modelInt(ls); ok && l.IsInt64() && l.Int64() >= 0 && l.Int64() <= 1<<12 {
+				n = int(l.Int64())
+			}
+		}
+		str := strings.Repeat("a", n)
+		return &govcrt.JVal{Str: &str}, ""
+	case "any":
+		ts, _ := mr.get(p.term)
+		if tv, ok := modelInt(ts); !ok || tv.Sign() == 0 {
+			return &govcrt.JVal{Nil: true}, ""
+		}
+		ds, _ := mr.get(p.dyn)
+		dv, ok := modelInt(ds)
+		if !ok {
+			return &govcrt.JVal{Nil: true}, ""
+		}
+		for _, v := range p.variants {
+			if v.id == dv.Int64() {
+				inner, why := mr.read(v.p)
+				if inner == nil {
+					return nil, why
+				}
+				return &govcrt.JVal{AnyType: v.name, Inner: inner}, ""
+			}
+		}
+		return nil, fmt.Sprintf("dynamic type id %s of an interface value has no replay builder", dv)
 	case "slice":
 		as, _ := mr.get(p.arr)
 		a, _ := modelInt(as)
